@@ -382,7 +382,7 @@ def run_check(chk, tier, seed, replay=None, max_report=5):
     kernel_checked = 0
     kernel_problem = None
     if chk.entry and model_error is None and cases:
-        k = 200 if tier == "thorough" else 12
+        k = 200 if tier == "thorough" else 24
         pool = [i for i in range(len(cases)) if mobs[i] is not None]
         idx = sorted(rng.sample(pool, min(k, len(pool))))
         try:
